@@ -324,6 +324,143 @@ Section Prims.
   Qed.
 End Prims.
 
+(* ---------- the KeyStore lock-state machine: statements over every history ---------- *)
+(* the (account, passphrase) an operation authenticates with *)
+Definition op_auth (op : ks_op) : option (nat * bytes) :=
+  match op with
+  | OTimedUnlock i p _ => Some (i, p)
+  | OUpdate i old _ => Some (i, old)
+  | OExport i p => Some (i, p)
+  | ODelete i p => Some (i, p)
+  | OSignWithPass i p => Some (i, p)
+  | _ => None
+  end.
+
+(* op is given a passphrase that is not the one of its (existing) target account *)
+Definition wrong_passphrase (s : ks_state) (op : ks_op) : Prop :=
+  exists i p, op_auth op = Some (i, p) /\
+    match nth_error (ks_accts s) i with Some a => authenticates a p = false | None => True end.
+Definition right_passphrase (s : ks_state) (op : ks_op) : Prop :=
+  exists i p a, op_auth op = Some (i, p) /\ nth_error (ks_accts s) i = Some a /\ authenticates a p = true.
+
+Lemma wrong_passphrase_step s op : wrong_passphrase s op -> ks_step s op = (s, false).
+Proof.
+  intros (i & p & A & W). destruct op; cbn in A; try discriminate; injection A as <- <-;
+    cbn [ks_step]; destruct (nth_error (ks_accts s) _) as [a|]; try reflexivity; now rewrite W.
+Qed.
+
+Lemma right_passphrase_step s op : right_passphrase s op -> snd (ks_step s op) = true.
+Proof.
+  intros (i & p & a & A & N & R). destruct op; cbn in A; try discriminate; injection A as <- <-;
+    cbn [ks_step]; rewrite N, ?R; try reflexivity.
+  destruct (a_lock a); reflexivity.
+Qed.
+
+(* for every history: a wrong passphrase is an error and changes nothing *)
+Theorem wrong_passphrase_never_changes_state s0 ops op :
+  let s := fst (ks_run s0 ops) in
+  wrong_passphrase s op -> ks_step s op = (s, false).
+Proof. intros s. apply wrong_passphrase_step. Qed.
+
+Theorem right_passphrase_succeeds s0 ops op :
+  right_passphrase (fst (ks_run s0 ops)) op -> snd (ks_step (fst (ks_run s0 ops)) op) = true.
+Proof. apply right_passphrase_step. Qed.
+
+Theorem sign_iff_unlocked s i a :
+  nth_error (ks_accts s) i = Some a -> ks_step s (OSign i) = (s, is_unlocked (ks_now s) a).
+Proof. intros N. cbn [ks_step]. now rewrite N. Qed.
+
+(* an account can only come to be unlocked through an Unlock / TimedUnlock that was given its passphrase *)
+Fixpoint granted (s : ks_state) (ops : list ks_op) (i : nat) : bool :=
+  match ops with
+  | [] => false
+  | op :: t =>
+    (match op with
+     | OTimedUnlock j p _ =>
+         Nat.eqb i j && match nth_error (ks_accts s) j with Some a => authenticates a p | None => false end
+     | _ => false
+     end) || granted (fst (ks_step s op)) t i
+  end.
+
+Lemma nth_error_upd_nth {A} (f : A -> A) : forall l i j,
+  nth_error (upd_nth j f l) i = if Nat.eqb i j then option_map f (nth_error l i) else nth_error l i.
+Proof.
+  induction l as [|x l IH]; intros i j.
+  - cbn. destruct i, j; cbn; try reflexivity. now destruct (Nat.eqb i j).
+  - destruct j, i; cbn; try reflexivity. apply IH.
+Qed.
+
+Definition not_locked (s : ks_state) (i : nat) : Prop :=
+  exists a, nth_error (ks_accts s) i = Some a /\ a_lock a <> Locked.
+
+Lemma step_not_locked s op i :
+  not_locked (fst (ks_step s op)) i -> not_locked s i \/ granted s [op] i = true.
+Proof.
+  intros (a & N & L). unfold not_locked.
+  assert (Keep : forall g : acct -> acct, (forall x, a_lock (g x) = a_lock x) -> forall j,
+            nth_error (upd_nth j g (ks_accts s)) i = Some a ->
+            exists a0, nth_error (ks_accts s) i = Some a0 /\ a_lock a0 <> Locked).
+  { intros g Hg j E. rewrite nth_error_upd_nth in E. destruct (Nat.eqb i j).
+    - destruct (nth_error (ks_accts s) i) as [a0|]; [|discriminate]. cbn in E. injection E as <-.
+      exists a0. split; [reflexivity|]. now rewrite <- Hg.
+    - eauto. }
+  destruct op; cbn [ks_step fst] in N.
+  - (* OCreate *) cbn [ks_accts] in N.
+    destruct (Nat.lt_ge_cases i (length (ks_accts s))) as [Lt|Ge].
+    + rewrite nth_error_app1 in N by assumption. left. eauto.
+    + rewrite nth_error_app2 in N by assumption.
+      destruct (i - length (ks_accts s))%nat as [|k]; cbn in N.
+      * injection N as <-. cbn in L. contradiction.
+      * destruct k; discriminate.
+  - (* OTimedUnlock *)
+    cbn [granted]. destruct (nth_error (ks_accts s) i0) as [a0|] eqn:N0; cbn [fst] in N; [|left; eauto].
+    destruct (authenticates a0 p) eqn:Au; cbn [fst] in N; [|left; eauto].
+    destruct (match a_lock a0 with Forever => true | _ => false end); cbn [fst ks_accts] in N; [left; eauto|].
+    rewrite nth_error_upd_nth in N. destruct (Nat.eqb_spec i i0) as [->|Ne]; [|left; eauto].
+    right. rewrite ?Nat.eqb_refl, ?N0, ?Au; reflexivity.
+  - (* OLock *) cbn [ks_accts] in N. rewrite nth_error_upd_nth in N. destruct (Nat.eqb i i0).
+    + destruct (nth_error (ks_accts s) i); [|discriminate]. cbn in N. injection N as <-. cbn in L. contradiction.
+    + left. eauto.
+  - (* OUpdate *)
+    destruct (nth_error (ks_accts s) i0) as [a0|]; cbn [fst] in N; [|left; eauto].
+    destruct (authenticates a0 old); cbn [fst ks_accts] in N; [|left; eauto].
+    left. eapply (Keep (fun a => mkAcct (a_exists a) new (a_lock a))); [reflexivity|exact N].
+  - (* OExport *) destruct (nth_error (ks_accts s) i0); cbn [fst] in N; left; eauto.
+  - (* ODelete *)
+    destruct (nth_error (ks_accts s) i0) as [a0|]; cbn [fst] in N; [|left; eauto].
+    destruct (authenticates a0 p); cbn [fst ks_accts] in N; [|left; eauto].
+    left. eapply (Keep (fun a => mkAcct false (a_pass a) (a_lock a))); [reflexivity|exact N].
+  - (* OSign *) destruct (nth_error (ks_accts s) i0); cbn [fst] in N; left; eauto.
+  - (* OSignWithPass *) destruct (nth_error (ks_accts s) i0); cbn [fst] in N; left; eauto.
+  - (* OWait *) left. eauto.
+Qed.
+
+Lemma ks_run_cons s op t : fst (ks_run s (op :: t)) = fst (ks_run (fst (ks_step s op)) t).
+Proof. cbn [ks_run]. destruct (ks_step s op) as [s1 r]. cbn [fst]. destruct (ks_run s1 t). reflexivity. Qed.
+
+Lemma run_not_locked : forall ops s i,
+  not_locked (fst (ks_run s ops)) i -> not_locked s i \/ granted s ops i = true.
+Proof.
+  induction ops as [|op t IH]; intros s i NL; [left; exact NL|].
+  rewrite ks_run_cons in NL. destruct (IH _ _ NL) as [NL1|G].
+  - destruct (step_not_locked _ _ _ NL1) as [NL0|G0]; [now left|right].
+    cbn [granted] in *. rewrite orb_false_r in G0. now rewrite G0.
+  - right. cbn [granted]. rewrite G. apply orb_true_r.
+Qed.
+
+(* from a fresh KeyStore: whatever the history, an account that can sign was at some earlier point
+   unlocked by an Unlock / TimedUnlock carrying the passphrase its file was then encrypted with *)
+Theorem unlocked_only_by_right_passphrase ops i a :
+  let s := fst (ks_run ks_init ops) in
+  nth_error (ks_accts s) i = Some a -> is_unlocked (ks_now s) a = true -> granted ks_init ops i = true.
+Proof.
+  intros s N U.
+  assert (NL : not_locked s i).
+  { exists a. split; [exact N|]. intros E. unfold is_unlocked in U. rewrite E in U. discriminate. }
+  destruct (run_not_locked _ _ _ NL) as [(a0 & N0 & _)|G]; [|exact G].
+  cbn in N0. destruct i; discriminate.
+Qed.
+
 (* ---------- the MAC covers neither version nor cipher ---------- *)
 (* all members the code looks at, except the two version members, are equal *)
 Definition same_but_version (f g : keyfile) : Prop :=
